@@ -14,6 +14,8 @@ pub fn run(r: &mut Rec) {
     crate::drivers::forms::extremes(r);
     // bit writes around the lowest set bit at the digit boundaries (mask arithmetic that overflows only with checks on)
     crate::drivers::bits::lowbit_family(r, false);
+    // Montgomery reduction on moduli with runs of all-ones digits (carry / borrow arithmetic that wraps in release)
+    crate::drivers::modpow::ones_run_family(r, 4);
     // cross-section: arithmetic, division conventions, bits, conversions on fixed operands
     let mut rng = Rng(r.seed ^ 0xC16);
     for k in 0..40 {
